@@ -313,10 +313,10 @@ func (self *linkedPairs) Get(key string) (*Pair, int) {
 		i, ok := self.index[caching.StrHash(key)]
 		if ok {
 			n := self.At(i)
-			if n.Key == key {
+			if n.Key == key && !n.unset() {
 				return n, i
 			}
-			// hash conflicts
+			// hash conflicts, or the slot has been unset
 			goto linear_search
 		} else {
 			return nil, -1
@@ -324,11 +324,18 @@ func (self *linkedPairs) Get(key string) (*Pair, int) {
 	}
 linear_search:
 	for i := 0; i < self.size; i++ {
-		if n := self.At(i); n.Key == key {
+		/* an unset (soft-deleted) slot has an empty key: it must not match the key "" */
+		if n := self.At(i); n.Key == key && !n.unset() {
 			return n, i
 		}
 	}
 	return nil, -1
+}
+
+// unset reports whether the pair is the zero Pair left behind by a soft delete
+// (a live pair always carries the hash of its key, which is never zero).
+func (self *Pair) unset() bool {
+	return self.hash == 0 && self.Key == "" && self.Value.t == _V_NONE
 }
 
 func (self *linkedPairs) ToSlice(con []Pair) {
